@@ -297,6 +297,36 @@ func vh_C09_Reconfigured() {
 	vfReach("end")
 }
 
+// one worker busy with a slow job, the job channel full, jobs waiting in a buffer of 2: the queue's loader runs
+// (and fails to move anything) while they wait; every accepted job still runs exactly once
+func vh_C09_BacklogBehindBusyWorker() {
+	vfSetMapOrder(2)
+	l := &c09Log{started: map[int]int{}}
+	p := c09Pool(l, 1, 0, 1, 2)
+	accepted := make([]bool, 5)
+	gate := make(chan struct{})
+	first := l.job(0, false, false)
+	accepted[0] = p.Schedule(func() { <-gate; first() }) == nil // keeps the only worker busy until the gate opens
+	vfQuiesce()
+	for i := 1; i < 5; i++ {
+		accepted[i] = p.Schedule(l.job(i, false, false)) == nil
+		if i == 2 {
+			time.Sleep(30 * time.Millisecond) // let the loader pass over a full channel with one job buffered
+		}
+	}
+	close(gate)
+	vfQuiesce()
+	for i := 0; i < 5; i++ {
+		if accepted[i] {
+			vfAssert("accepted-job-ran-exactly-once", l.started[i] == 1)
+		} else {
+			vfAssert("rejected-job-never-ran", l.started[i] == 0)
+		}
+	}
+	vfAssert("never-more-than-maximum-running", l.maxRunning <= 1)
+	vfReach("end")
+}
+
 func vh_C09_Invoke() {
 	vfSetMapOrder(2)
 	l := &c09Log{started: map[int]int{}}
